@@ -63,8 +63,8 @@ FLOORS = {
 SHARD_TIMEOUT = {"quick": 900, "thorough": 3000}
 N_SAMPLES = 8
 
-N_CASES = {"quick": {"bus": 2000, "bus-subword": 250, "bus-io-odd": 250, "bus-p2p": 150, "loc": 1800, "loc-edge": 600, "platform": 1100, "platform-override": 200, "soc": 8},
-           "thorough": {"bus": 27000, "bus-subword": 3000, "bus-io-odd": 3000, "bus-p2p": 1500, "loc": 22000, "loc-edge": 8000, "platform": 14000, "platform-override": 2000, "soc": 48}}
+N_CASES = {"quick": {"bus": 2000, "bus-subword": 250, "bus-io-odd": 500, "bus-io-tight": 700, "bus-p2p": 150, "loc": 1800, "loc-edge": 600, "platform": 1100, "platform-override": 200, "soc": 8},
+           "thorough": {"bus": 27000, "bus-subword": 3000, "bus-io-odd": 5000, "bus-io-tight": 7000, "bus-p2p": 1500, "loc": 22000, "loc-edge": 8000, "platform": 14000, "platform-override": 2000, "soc": 48}}
 N_SHARDS = {"quick": 16, "thorough": 64}
 
 
@@ -293,9 +293,10 @@ def hx(v):
 # bus histories
 # ------------------------------------------------------------------------------------------------
 
-BUS_CLASSES = ("bus", "bus-subword", "bus-io-odd", "bus-p2p")
+BUS_CLASSES = ("bus", "bus-subword", "bus-io-odd", "bus-io-tight", "bus-p2p")
 # DESIGN 3.4: 'bus' cannot produce the features of the hostile classes and must be violation-free outright:
 #   bus-subword : regions smaller than one bus word          bus-io-odd : IO regions whose size is not a power of two
+#   bus-io-tight: small IO regions with odd sizes / unaligned origins that automatic uncached allocations fill up to their end
 #   bus-p2p     : 1 master + 1 slave designs in which the first declared region is not the slave's region
 POW2_SIZES = [0x100, 0x400, 0x1000, 0x1000, 0x2000, 0x10000, 0x10000, 0x100000, 0x1000000, 0x10000000, 0x20000000, 0x40000000, 0x80000000]
 ODD_SIZES = [0x1800, 0x3000, 0x1001, 0xfff, 0x12345, 0x30000, 0x5000000, 0x18000000, 0x60000000, 0x7fffffff, 0x80000001, 0xc0, 0x28]
@@ -478,6 +479,25 @@ def gen_bus_op(rng, col, bus, params, cls, counter):
             return rng.choice(pool)
         return "%s%d" % (prefix, k)
 
+    if cls == "bus-io-tight":
+        ios = list(bus.io_regions.values())
+        if not ios or r < 0.08:
+            s = rng.choice([0x2800, 0x3000, 0x5000, 0xbfff, 0x18000, 0x6000, 0x14000, 0x4000, 0x10000, 0x2400, 0x7000])
+            p2 = 1 << (s - 1).bit_length()
+            o = rng.randrange(1, max(2, min(top, 2**32)//p2 - 1))*p2 + rng.choice([0, 0, 0x1000, 0x800, 0x400, p2//2])
+            col.cov("boundary_kinds", "io:tight")
+            return {"op": "add_io", "name": name("io", names), "origin": o, "size": s}
+        i = rng.choice(ios)
+        word = params["data_width"]//8
+        if r < 0.2:
+            # a fixed region somewhere inside the IO region (what the automatic allocations have to step over)
+            sz = max(word, rng.choice([0x400, 0x800, 0x1000, i.size//8]))
+            o = i.origin + rng.randrange(0, max(1, i.size//sz))*sz
+            return {"op": "add_region", "name": name("r", names),
+                    "region": {"size": sz, "origin": o, "cached": False, "linker": False, "decode": True}}
+        sz = max(word, rng.choice([i.size//2, i.size//3, i.size//4, i.size//5, 0x1000, 0x2000, 0x800, 0x5000, i.size - i.size_pow2//2, i.size//2 + 0x400]))
+        col.cov("boundary_kinds", "origin:auto-uncached-tight")
+        return {"op": "alloc_region", "name": "a%d" % k, "size": sz, "cached": False}
     if r < 0.13 or (k == 0 and rng.random() < 0.6):
         # IO region
         choice = rng.random()
